@@ -2323,7 +2323,8 @@ reg_assoc (char *str, array_t * pat, array_t * tok, svalue_t * def)
 
           /* The following is from regexplode, to prevent i guess infinite */
           /* loops on "" patterns - Randor 5/29/94 */
-          if (rmp->begin == tmp && (!*++tmp))
+          /* (an empty match at the very end - "$" - leaves tmp on the terminator: nothing behind it is ours) */
+          if (rmp->begin == tmp && (!*tmp || !*++tmp))
             break;
         }
 
